@@ -523,19 +523,24 @@ func (g *gen) history(i int) ([]string, string, bool) {
 		g.c.Count("hist:rt-slowloris")
 		toks := g.flat(cfg)
 		return toks, replayTag(toks), false
-	case kind < 6: // real alive timer
+	case kind < 6: // real alive timer (no step of this script races with the timer)
 		cfg[4] = "2"
-		cn := g.opAcc()
-		g.opFF(cn)
-		if cn.st == 1 {
-			claim := g.p(40)
-			if claim {
-				g.add("get", "0", Hex(cn.ufrag), B(cn.is6), Hex(cn.lip))
-				g.add("rd", "0")
-			} else {
-				g.add("expire", Hex(cn.ufrag), B(cn.is6), Hex(cn.lip))
-			}
-			g.add("stat", strconv.Itoa(cn.id))
+		claimFirst := g.p(40)
+		u := ufragPool[g.rnd(3)]
+		is6 := g.p(25)
+		ip := g.pickIP(is6)
+		if claimFirst {
+			// the agent's conn exists before the client connects: never provisional, must not expire
+			g.add("get", "0", Hex(u), B(is6), Hex(ip))
+		}
+		raddr := g.newRaddrForce(is6)
+		raw := buildStun(g.c, stun.MethodBinding, stun.ClassRequest, u+":r", true, 0)
+		g.add("acc", "0", Hex(raddr), B(is6), Hex(ip), "1", "64")
+		g.add("ff", "0", strconv.Itoa(len(raw)), "1", "1", Hex(u+":r"), Hex(string(raw)))
+		g.add("expire", Hex(u), B(is6), Hex(ip))
+		g.add("stat", "0")
+		if claimFirst {
+			g.add("rd", "0")
 		}
 		g.add("census")
 		g.c.Count("hist:rt-expiry")
